@@ -284,7 +284,9 @@ def allowList : List Allowed := [
   { file := "SRC/sp_ienv.c", name := "slu_verif_pivot_hook", cond := hookReadOnly,
     why := "hook H2 (pivot event callback pointer), exists only under SLU_VERIF; read by [sdcz]pivotL, set by the harness before threads start" },
   { file := "SRC/sp_ienv.c", name := "slu_verif_ilu_pivot_hook", cond := hookReadOnly,
-    why := "hook H2 (pivot event callback pointer), exists only under SLU_VERIF; read by ilu_[sdcz]pivotL, set by the harness before threads start" }
+    why := "hook H2 (pivot event callback pointer), exists only under SLU_VERIF; read by ilu_[sdcz]pivotL, set by the harness before threads start" },
+  { file := "SRC/sp_ienv.c", name := "slu_verif_coldfs_hook", cond := hookReadOnly,
+    why := "hook H3 (callback pointer reporting the arguments of each column_dfs call), exists only under SLU_VERIF; read by [sdcz]gstrf, set by the single-threaded family coldfsreal around its own factorization and NULL otherwise" }
 ]
 
 /-- the two routines whose documented purpose is to FILL the caller's options structure -/
